@@ -2,7 +2,8 @@ SPEC = dict(
     claimed=True,
     title='Curves evaluate to their documented function, always within 0..255',
     props_file='Props/C06.v', props_mod='Props.C06',
-    proof_files=['Model/Curves.v', 'Proofs/CurveFloat.v', 'Proofs/CurveFn.v', 'Proofs/CurvePid.v', 'Proofs/CurveLin.v',
+    props_extra=[('Props/C06Steps.v', 'Props.C06Steps'), ('Props/C06LinMid.v', 'Props.C06LinMid')],
+    proof_files=['Proofs/StepsFloat.v', 'Proofs/StepsSeg.v', 'Proofs/StepsMono.v', 'Proofs/CurveLinMid.v', 'Model/Curves.v', 'Proofs/CurveFloat.v', 'Proofs/CurveFn.v', 'Proofs/CurvePid.v', 'Proofs/CurveLin.v',
                  'Proofs/CurveLinMono.v', 'Proofs/CurvePidRange.v', 'Proofs/CurveSteps.v', 'Proofs/CurveMono.v', 'Drv/Curves.v'],
     tie_vo=['Proofs/LeafTie.vo'],
     drivers=[dict(name='curves', drv_mod='Drv.Curves', drv_file='Drv/Curves.v', shard=150,
@@ -21,13 +22,10 @@ SPEC = dict(
     trusted_base=['FloatAxioms + classical reals through Flocq for the float64(sum) >= 255 / float64(diff) < 0 steps and the PID range lemma (see print_assumptions)',
                   'hand-written model coq/Model/Curves.v of linear.go/functional.go/pid.go/curve.go; agreement observed on the generated cases',
                   'overlay-only sensor type VerifSensor (GetValue returns chosen float64 values / errors) for PID curves; linear curves read real FileSensor objects'],
-    partial='C06_lin_minmax_mid_partial (range + monotonicity proved; closeness to the real-valued formula C06_lin_minmax_mid_full is only checked by the exact-rational observer on every case); '
-            'C06_steps_partial_* (single step, at/below first step, first segment proved; general steps range C06_steps_full open, observer checks |v - exact interpolant| <= 1/2 + 2^-10); '
-            'C06_range_partial (trees of sum/max/min/average over total in-range leaves; C06_range_full over all six types with PID leaves is assembled only per construct: C06_fn_range, C06_lin_minmax_range, C06_pid). '
-            'Not modelled: ui.Fatal on an unknown function type, stack overflow on cyclic curve graphs (OutOfFuel in the model).',
+    partial='C06_steps_range_full and C06_lin_minmax_mid_full are now proved (Props/C06Steps.v, Props/C06LinMid.v: any non-empty step list with speeds in [0,255] and any non-NaN temperature gives a value in 0..255; the mid-ramp value is within (-1-2^-40, 2^-40) of the real formula). Still open: C06_range_full over all six function types with PID leaves is assembled only per construct (C06_fn_range, C06_lin_minmax_range, C06_steps_range, C06_pid). Not modelled: ui.Fatal on an unknown function type, stack overflow on cyclic curve graphs (OutOfFuel in the model).',
     finding_codes={1: 'D18'},
     finding_text={'D18': 'PID curve whose loop value is NaN (dt = 0 with unchanged reading, or inf-inf from finite absurd gains) returns int(NaN) = -2^63 instead of a value in 0..255 (curves/pid.go:34-37)'},
     level_text='Machine-checked: the six aggregation branches of functional.go equal their documented integer functions for any number (<2^40) of member values in 0..255; the min/max linear curve is total, within 0..255, 255/0 at the ends and monotone for EVERY non-NaN float64 temperature (Flocq bridge through each rounded operation); the PID curve value is within 0..255 whenever the PID term is not NaN and provably -2^63 otherwise (D18, two witnesses replayed on the real curve every run); registry evaluation equals tree evaluation on acyclic graphs. Every run evaluates the Coq model against the real curves/sensors registries on ~1600 generated cases and judges the implementation output with an exact-rational observer proved equivalent to its Prop.',
-    level_note='trusted: Coq kernel + FloatAxioms/Flocq reals; hand-written model Model/Curves.v tied by differential runs; steps-form range and mid-ramp closeness are observed, not proved',
+    level_note='trusted: Coq kernel + FloatAxioms/Flocq reals; hand-written model Model/Curves.v tied by differential runs; steps-form range and mid-ramp closeness proved in Props/C06Steps.v, Props/C06LinMid.v',
     design_ref='DESIGN.md section 5 C06',
 )
